@@ -231,6 +231,11 @@ def run(ctx):
                 q, shape = '"a b"~%s' % rng.choice(["1", "2", "03", "10"]), ["PHRASE", "APPROX"]
             else:
                 q, shape = "f:%s^%s" % (plain, num), ["TERM", "COLUMN", "TERM", "BOOST"]
+            if kind in ("^", "~", "p~") and rng.random() < 0.35:
+                # a prefix operator binds less tightly than `^` / `~`: the boost belongs to the term, the negation to
+                # the boosted term (seeded C06-H: NOT given the precedence of a unary minus)
+                pre = rng.choice(["NOT ", "-", "+"])
+                q, shape = pre + q, [{"NOT ": "NOT", "-": "MINUS", "+": "PLUS"}[pre]] + shape
             if rng.random() < 0.4:
                 q, shape = q + " bar", shape + ["TERM"]
         toks = _parsing.spec_lex(q)
